@@ -5,7 +5,7 @@ from wire import mk_fmt, cells
 from props.common import guarded, canon_cells_list, reply_fmt_list, PALETTE
 from props.widthenv import (ALPHA3, wc, env_fields, text_of, cut_layouts, self_check, realize, shared_variants,
                             shared_case_fields, pool_size, pool_object, safe_oracle, safe_impl)
-from curtsies.formatstring import Chunk
+from curtsies.formatstring import Chunk, fmtstr
 
 PROP = "C11"
 MODULES = ["Curtsies.Properties.C11"]
@@ -15,6 +15,9 @@ RULE = ("exhaustive: every string of length <=6 (thorough: <=7) over {narrow 'a'
         "positions of .chunks (f*2, f*3, f+f, f+f+f, join with repeated item / repeated separator, whole-run slices "
         "concatenated) for every string <=3 x <=1-cut layouts x columns 2..4, plus objects from random public-API programs "
         "with interleaved observations (common.api_pool); "
+        "PRE-OBSERVED sources: every string <=4 x 2-cut layouts x columns 2..4 (and shared-identity values) with the source "
+        "rendered / hashed / compared BEFORE wrapping; on these, on the shared-identity/API-built/interleaved cases and on every string <=4 each returned line is observed through str(), == and "
+        "hash() against an equal freshly built value (pre-observed cases also parse str(line) back); "
         "INTERLEAVED consumption of the lazy generator: the same FmtStr at two column widths consumed in lock-step, and a "
         "generator suspended after 1..2 next() calls while another over the same f / f+tail / f*2 (sharing its first Chunk "
         "object) is fully consumed, then resumed - every produced line list judged and tied; "
@@ -70,6 +73,19 @@ def mk_cases(ctx):
             shared.append(dict(op="wasplit", f=wire.fmt_chunks(obj), pool=[seed, i], columns=r.choice([2, 2, 3, 4, 5])))
     ctx.exhaustive.append("C11: %d cases on FmtStr values sharing Chunk objects by identity / built by API programs" % len(shared))
     cases += shared
+    pre = []
+    for n in range(6 if ctx.thorough else 5):
+        for tup in itertools.product(ALPHA3, repeat=n):
+            s = "".join(tup)
+            for ch in cut_layouts(s, PALETTE, max_cuts=2):
+                for columns in (2, 3, 4):
+                    pre.append(dict(op="wasplit", f=ch, columns=columns, pre=["str", "hash", "eq"]))
+            for kinds in (["str"], ["hash"], ["eq"], ["repr", "str"]):
+                pre.append(dict(op="wasplit", f=[(s, dict(PALETTE[2]))], columns=2, pre=kinds))
+            for spec in shared_variants([(s, dict(PALETTE[1]))])[:4]:
+                pre.append(dict(op="wasplit", columns=3, pre=["str", "eq"], **shared_case_fields(spec)))
+    ctx.exhaustive.append("C11: %d cases whose SOURCE was rendered/hashed/compared before wrapping" % len(pre))
+    cases += pre
     inter = []
     bases = []
     for n in range(5 if ctx.thorough else 4):
@@ -152,7 +168,26 @@ def run_scenario(sc):
     return out0, out1
 
 
+def pre_observe(obj, kinds, chunks):
+    """render / hash / compare the SOURCE before it is wrapped: fills every cached rendering of the source and its runs"""
+    for k in kinds:
+        if k == "str":
+            str(obj)
+            for ch in obj.chunks:
+                str(ch)
+        elif k == "hash":
+            hash(obj)
+        elif k == "eq":
+            obj == mk_fmt(chunks)
+        elif k == "repr":
+            repr(obj)
+
+
 def run_impl(c):
+    if "pre" in c:
+        obj = realize(c)
+        pre_observe(obj, c["pre"], c["f"])
+        return list(obj.width_aware_splitlines(c["columns"]))
     if "inter" in c:
         return run_scenario(c["inter"])[c["inter"]["which"]]
     return list(realize(c).width_aware_splitlines(c["columns"]))
@@ -213,6 +248,26 @@ def reference_wrap(cs, columns):
     return lines
 
 
+def observe_rendering(lines, deep):
+    """every returned line observed through str()/==/hash as well as through its runs: what it renders to must be what
+    an equal, freshly built value renders to (and, deep, must parse back to the line's own characters and formatting)"""
+    for k, l in enumerate(lines):
+        chunks = wire.fmt_chunks(l)
+        fresh = mk_fmt(chunks)
+        rendered = str(l)
+        if rendered != str(fresh):
+            return "str(line %d) is %r, its runs %r render to %r" % (k, rendered, chunks, str(fresh))
+        if not (l == fresh) or hash(l) != hash(fresh):
+            return "line %d is not equal to / hashes differently from an equal freshly built value" % k
+        if l.s != "".join(t for t, _ in chunks) or len(l) != sum(len(t) for t, _ in chunks):
+            return "line %d: .s / len() disagree with its runs" % k
+        if deep:
+            back = fmtstr(rendered)
+            if wire.eff_cells_of_chunks(wire.fmt_chunks(back)) != wire.eff_cells_of_chunks(chunks):
+                return "str(line %d) parses back to %r, the line's runs are %r" % (k, wire.fmt_chunks(back), chunks)
+    return None
+
+
 def _oracle(c):
     if c["op"] != "wasplit" or c["columns"] < 2:
         return None
@@ -224,6 +279,10 @@ def _oracle(c):
         lines = run_impl(c)
     except Exception as e:  # noqa: BLE001
         return "raised %s" % type(e).__name__
+    if any(k in c for k in ("pre", "build", "pool", "inter")) or len(cs) <= 4:
+        w = observe_rendering(lines, deep="pre" in c)
+        if w:
+            return w
     for k, l in enumerate(lines):
         if len(l) == 0 or not cells(l):
             return "line %d is empty" % k
